@@ -4,7 +4,7 @@ import DashLive.Driver.Util
 
 * `segidx <durs> <R> <tc>` → `<mod_segment> <seg_start> <origin>`
 * `timeline live <durs> <R> <ts> <tcF> <tsbd>` → `t:d:count;…` (`-` for an absent `t`; `-` for an empty list)
-* `timeline vod <durs> <R>` → same
+* `timeline vod <durs>` → same
 * `expand live|vod …` → `t:d;t:d;…` (DASH expansion of the same list)
 * `firstlast <ts> <sd> <sn> <E_us> <tsbd>` → `<first> <last>`
 * `liveindex <durs> <ts> <sd> <sn> <R> <E_us> <tsbd> <leeway_us> t|n <value> <conv_us>` →
@@ -43,11 +43,10 @@ def tlArgs : List String → Option (List SNode)
     let b ← parseNat tsbd
     if R = 0 ∨ d.isEmpty then none else
     some (timelineLive d R ts f b (b * ts + 1))
-  | ["vod", durs, r] => do
+  | ["vod", durs] => do
     let d ← parseNatList durs
-    let R ← parseNat r
     if d.isEmpty then none else
-    some (timelineVod d R (R + 1))
+    some (timelineVod d (d.sum + 1))
   | _ => none
 
 def timeline (args : List String) : Option String := (tlArgs args).map showNodes
